@@ -1,0 +1,160 @@
+//go:build verif
+
+package array
+
+// Machine-checked contracts for package array, discharged by /verif's slimvc.
+// Comment-only contracts plus ghost lemma functions; compiled only with -tags verif.
+
+// Position of the element stored at index idx: offset of the 64-bit word plus the
+// number of set bits below idx inside the word.
+//@ define arr_pos(a *Base, idx int) = int(a.Offsets[idx/64]) + popcnt64(a.Bitmaps[idx/64] & mask(idx%64))
+
+// arr_ok(a, w): what the accessors dereference; established by Init for element width w.
+//@ predicate arr_ok(a *Base, w int) = a != nil && len(a.Offsets) >= len(a.Bitmaps) && len(a.Elts) <= 1000000000
+//@     && forall(k, 0, len(a.Bitmaps), 0 <= a.Offsets[k] && (int(a.Offsets[k]) + popcnt64(a.Bitmaps[k])) * w <= len(a.Elts))
+
+//@ func (*Base).GetBytes
+//@   property C16
+//@   requires 1 <= eltsize && eltsize <= 64 && arr_ok(a, eltsize) && 0 <= idx && int(idx)/64 < len(a.Bitmaps)
+//@   use popcnt_bit_le(a.Bitmaps[idx/64], int(idx)%64)
+//@   use popcnt_mask_le(a.Bitmaps[idx/64], int(idx)%64)
+//@   ensures result1 == (bitat(a.Bitmaps, idx) == 1)
+//@   ensures !result1 ==> len(result0) == 0
+//@   ensures result1 ==> sameslice(result0, a.Elts[eltsize*arr_pos(a, int(idx)) : eltsize*arr_pos(a, int(idx)) + eltsize])
+
+//@ func (*U16).Get
+//@   property C16
+//@   requires arr_ok(&a.Base, 2) && 0 <= idx && int(idx)/64 < len(a.Bitmaps)
+//@   use popcnt_bit_le(a.Bitmaps[idx/64], int(idx)%64)
+//@   use popcnt_mask_le(a.Bitmaps[idx/64], int(idx)%64)
+//@   use bitmask_eq(int(idx)%64)
+//@   ensures result1 == (bitat(a.Bitmaps, idx) == 1)
+//@   ensures !result1 ==> result0 == 0
+//@   ensures result1 ==> result0 == le16(a.Elts, 2*arr_pos(&a.Base, int(idx)))
+
+//@ func (*U32).Get
+//@   property C16
+//@   requires arr_ok(&a.Base, 4) && 0 <= idx && int(idx)/64 < len(a.Bitmaps)
+//@   use popcnt_bit_le(a.Bitmaps[idx/64], int(idx)%64)
+//@   use popcnt_mask_le(a.Bitmaps[idx/64], int(idx)%64)
+//@   use bitmask_eq(int(idx)%64)
+//@   ensures result1 == (bitat(a.Bitmaps, idx) == 1)
+//@   ensures !result1 ==> result0 == 0
+//@   ensures result1 ==> result0 == le32(a.Elts, 4*arr_pos(&a.Base, int(idx)))
+
+//@ func (*U64).Get
+//@   property C16
+//@   requires arr_ok(&a.Base, 8) && 0 <= idx && int(idx)/64 < len(a.Bitmaps)
+//@   use popcnt_bit_le(a.Bitmaps[idx/64], int(idx)%64)
+//@   use popcnt_mask_le(a.Bitmaps[idx/64], int(idx)%64)
+//@   use bitmask_eq(int(idx)%64)
+//@   ensures result1 == (bitat(a.Bitmaps, idx) == 1)
+//@   ensures !result1 ==> result0 == 0
+//@   ensures result1 ==> result0 == le64(a.Elts, 8*arr_pos(&a.Base, int(idx)))
+
+//@ func (*I16).Get
+//@   property C16
+//@   requires arr_ok(&a.Base, 2) && 0 <= idx && int(idx)/64 < len(a.Bitmaps)
+//@   use popcnt_bit_le(a.Bitmaps[idx/64], int(idx)%64)
+//@   use popcnt_mask_le(a.Bitmaps[idx/64], int(idx)%64)
+//@   use bitmask_eq(int(idx)%64)
+//@   ensures result1 == (bitat(a.Bitmaps, idx) == 1)
+//@   ensures !result1 ==> result0 == 0
+//@   ensures result1 ==> result0 == s16(le16(a.Elts, 2*arr_pos(&a.Base, int(idx))))
+
+//@ func (*I32).Get
+//@   property C16
+//@   requires arr_ok(&a.Base, 4) && 0 <= idx && int(idx)/64 < len(a.Bitmaps)
+//@   use popcnt_bit_le(a.Bitmaps[idx/64], int(idx)%64)
+//@   use popcnt_mask_le(a.Bitmaps[idx/64], int(idx)%64)
+//@   use bitmask_eq(int(idx)%64)
+//@   ensures result1 == (bitat(a.Bitmaps, idx) == 1)
+//@   ensures !result1 ==> result0 == 0
+//@   ensures result1 ==> result0 == s32(le32(a.Elts, 4*arr_pos(&a.Base, int(idx))))
+
+//@ func (*I64).Get
+//@   property C16
+//@   requires arr_ok(&a.Base, 8) && 0 <= idx && int(idx)/64 < len(a.Bitmaps)
+//@   use popcnt_bit_le(a.Bitmaps[idx/64], int(idx)%64)
+//@   use popcnt_mask_le(a.Bitmaps[idx/64], int(idx)%64)
+//@   use bitmask_eq(int(idx)%64)
+//@   ensures result1 == (bitat(a.Bitmaps, idx) == 1)
+//@   ensures !result1 ==> result0 == 0
+//@   ensures result1 ==> result0 == s64(le64(a.Elts, 8*arr_pos(&a.Base, int(idx))))
+
+// ---------------------------------------------------------------------------
+// Ghost lemmas (C16): the typed accessor and the raw-bytes accessor agree, for every array state
+// satisfying arr_ok and every index: same found flag, and the typed value is the little-endian
+// decoding of the raw bytes. Checked against the CONTRACTS of Get and GetBytes only.
+
+//@ func lemmaTypedEqualsRawU16
+//@   property C16
+//@   requires arr_ok(&a.Base, 2) && 0 <= idx && int(idx)/64 < len(a.Bitmaps)
+//@   ensures result1 == result3
+//@   ensures result1 ==> len(result2) == 2 && result0 == le16(result2, 0)
+
+func lemmaTypedEqualsRawU16(a *U16, idx int32) (uint16, bool, []byte, bool) {
+	v, f := a.Get(idx)
+	bs, g := a.GetBytes(idx, 2)
+	return v, f, bs, g
+}
+
+//@ func lemmaTypedEqualsRawU32
+//@   property C16
+//@   requires arr_ok(&a.Base, 4) && 0 <= idx && int(idx)/64 < len(a.Bitmaps)
+//@   ensures result1 == result3
+//@   ensures result1 ==> len(result2) == 4 && result0 == le32(result2, 0)
+
+func lemmaTypedEqualsRawU32(a *U32, idx int32) (uint32, bool, []byte, bool) {
+	v, f := a.Get(idx)
+	bs, g := a.GetBytes(idx, 4)
+	return v, f, bs, g
+}
+
+//@ func lemmaTypedEqualsRawU64
+//@   property C16
+//@   requires arr_ok(&a.Base, 8) && 0 <= idx && int(idx)/64 < len(a.Bitmaps)
+//@   ensures result1 == result3
+//@   ensures result1 ==> len(result2) == 8 && result0 == le64(result2, 0)
+
+func lemmaTypedEqualsRawU64(a *U64, idx int32) (uint64, bool, []byte, bool) {
+	v, f := a.Get(idx)
+	bs, g := a.GetBytes(idx, 8)
+	return v, f, bs, g
+}
+
+//@ func lemmaTypedEqualsRawI16
+//@   property C16
+//@   requires arr_ok(&a.Base, 2) && 0 <= idx && int(idx)/64 < len(a.Bitmaps)
+//@   ensures result1 == result3
+//@   ensures result1 ==> len(result2) == 2 && result0 == s16(le16(result2, 0))
+
+func lemmaTypedEqualsRawI16(a *I16, idx int32) (int16, bool, []byte, bool) {
+	v, f := a.Get(idx)
+	bs, g := a.GetBytes(idx, 2)
+	return v, f, bs, g
+}
+
+//@ func lemmaTypedEqualsRawI32
+//@   property C16
+//@   requires arr_ok(&a.Base, 4) && 0 <= idx && int(idx)/64 < len(a.Bitmaps)
+//@   ensures result1 == result3
+//@   ensures result1 ==> len(result2) == 4 && result0 == s32(le32(result2, 0))
+
+func lemmaTypedEqualsRawI32(a *I32, idx int32) (int32, bool, []byte, bool) {
+	v, f := a.Get(idx)
+	bs, g := a.GetBytes(idx, 4)
+	return v, f, bs, g
+}
+
+//@ func lemmaTypedEqualsRawI64
+//@   property C16
+//@   requires arr_ok(&a.Base, 8) && 0 <= idx && int(idx)/64 < len(a.Bitmaps)
+//@   ensures result1 == result3
+//@   ensures result1 ==> len(result2) == 8 && result0 == s64(le64(result2, 0))
+
+func lemmaTypedEqualsRawI64(a *I64, idx int32) (int64, bool, []byte, bool) {
+	v, f := a.Get(idx)
+	bs, g := a.GetBytes(idx, 8)
+	return v, f, bs, g
+}
